@@ -35,3 +35,20 @@ def genHandler (d : String → List Int → Option String) : Handler
   | _ => none
 
 end Driver
+
+namespace Driver
+/-- stateful variant: the handler threads a state through the lines (named objects of a history) -/
+partial def loopS {σ : Type} (f : σ → List String → Option (σ × String)) (s : σ)
+    (h : IO.FS.Stream) (out : IO.FS.Stream) : IO Unit := do
+  let line ← h.getLine
+  if line.isEmpty then return ()
+  let toks := (line.trimAscii.toString.splitOn " ").filter (· ≠ "")
+  match f s toks with
+  | some (s', r) => out.putStrLn r; loopS f s' h out
+  | none => out.putStrLn "bad-op"; loopS f s h out
+
+def runS {σ : Type} (f : σ → List String → Option (σ × String)) (init : σ) : IO Unit := do
+  let out ← IO.getStdout
+  loopS f init (← IO.getStdin) out
+  out.flush
+end Driver
